@@ -8,6 +8,8 @@ the remaining fields.
 import GgrsModel.Model.Inventory
 import GgrsModel.Proofs.Endpoint
 import GgrsModel.Properties.C14
+import GgrsModel.Model.P2P
+import GgrsModel.Proofs.Monad
 
 namespace Ggrs.Endpoint
 open Codec (Bytes)
@@ -97,3 +99,35 @@ theorem C08_wrong_size_first_frame (e : Endpoint) (sf : Frame) (inp : Bytes) (re
 example : Codec.decode [0] [0x80] = .error .truncatedRunHeader := by decide
 
 end Ggrs.Endpoint
+
+namespace Ggrs.P2P
+
+theorem updEp_unknown (addr : Nat) (f : Endpoint → M Endpoint) : ∀ (l : List (Nat × Endpoint)),
+    (∀ x, x ∈ l → x.1 ≠ addr) → updEp l addr f = .ok l := by
+  intro l
+  induction l with
+  | nil => intro _; rfl
+  | cons x xs ih =>
+    intro h
+    obtain ⟨a, e⟩ := x
+    have ha : (a == addr) = false := by
+      have := h (a, e) List.mem_cons_self
+      simpa using this
+    unfold updEp at ih ⊢
+    simp only [List.mapM_cons, ha, Bool.false_eq_true, if_false]
+    rw [ih (fun y hy => h y (List.mem_cons_of_mem _ hy))]
+    rfl
+
+/-- **C08, a packet from an unknown address (every state, every packet).** A message whose sender is
+neither a registered remote peer nor a registered spectator is dropped by `poll_remote_clients`
+without touching anything: the poll behaves exactly as if the message had not arrived. -/
+theorem C08_unknown_address (s : P2P) (now : Nat) (from_ : Nat) (msg : Msg) (rest : List (Nat × Msg))
+    (hr : ∀ x, x ∈ s.remotes → x.1 ≠ from_) (hs : ∀ x, x ∈ s.spectators → x.1 ≠ from_) :
+    s.pollRemoteClients now ((from_, msg) :: rest) = s.pollRemoteClients now rest := by
+  unfold pollRemoteClients
+  simp only [List.foldlM_cons]
+  rw [updEp_unknown from_ _ s.remotes hr, updEp_unknown from_ _ s.spectators hs]
+  rfl
+
+end Ggrs.P2P
+
